@@ -118,6 +118,10 @@ func (x *Exec) callValue(fr *Frame, st *State, c *ssa.CallCommon, fval Value, ar
 			x.havocCall(fr, st, c, args, "function value")
 		}
 		res := x.freshResult(st, x.resultType(c), "cb")
+		if x.isDetFuncName(src) && fv != nil && fv.Sym != nil {
+			x.note("assumed-deterministic function value: " + src)
+			res = x.detFuncResults(st, fv.Sym, c.Signature(), args)
+		}
 		if fr.isRoot && x.rootC != nil && x.rootC.Attrs["trackcalls"] != "" {
 			st.ghost["$call:"+x.sourceName(fr, c.Value)] = &callRecord{args: append([]Value(nil), args...), res: res, sig: c.Signature(), rt: x.resultType(c)}
 		}
